@@ -152,6 +152,52 @@ def _nonempty_init(rng, case):
     return [rng.choice(fits)] if fits else []
 
 
+def sp_history(seed):
+    """one caller-owned satisfaction profile handed to greedy, one voter's measure REPLACED in place (same number of voters), then the
+    resolute and the irresolute call on that object: the resolute outcome must be one of the irresolute ones, and both must be
+    what a freshly built satisfaction profile gives.  Round 7, C08-r7A: totals memoised on the satisfaction profile (used by the
+    resolute fast path only) and dropped only when its length changes.  Returns a violation or None."""
+    import pabutools.rules as R
+
+    r = random.Random(seed)
+    case = core.gen_election(r, btypes=("app", "app", "card"), m_lo=2, m_hi=5, n_hi=5)
+    if not case.ballots:
+        return None
+    names = [n for n, _ in case.projects]
+    new = core.gen_ballots(r, case.btype, names, 1, 1)[0]
+    i = r.randrange(len(case.ballots))
+    case2 = Case(case.projects, case.budget, case.btype, [new if k == i else b for k, b in enumerate(case.ballots)], case.seed)
+    sat = r.choice(["Cost_Sat", "Cardinality_Sat"] if case.btype == "app" else ["Additive_Cardinal_Sat"])
+    sc = core.sat_class(sat)
+    inst, projs = core.build_instance(case)
+    P1, P2 = core.build_profile(case, inst, projs), core.build_profile(case2, inst, projs)
+    sp = P1.as_sat_profile(sc)
+    cfg = {"rule": "greedy", "sat": sat, "sp_history_seed": seed}
+    try:
+        R.greedy_utilitarian_welfare(inst, P1, sat_profile=sp, is_sat_additive=True)
+        sp[i] = sc(inst, P2, P2[i])
+        res = sorted(p.name for p in R.greedy_utilitarian_welfare(inst, P2, sat_profile=sp, is_sat_additive=True))
+        irr = sorted(sorted(p.name for p in o) for o in R.greedy_utilitarian_welfare(inst, P2, sat_profile=sp, is_sat_additive=True, resoluteness=False))
+        fresh = sorted(sorted(p.name for p in o) for o in R.greedy_utilitarian_welfare(inst, P2, sat_profile=P2.as_sat_profile(sc), is_sat_additive=True, resoluteness=False))
+    except Exception as e:  # noqa: BLE001
+        return violation(f"greedy raised {e!r} on a satisfaction profile edited in place", case2, cfg, sig={"rule": "greedy", "history": "sat_profile_replace", "err": core.err_enum(e)})
+    if res not in irr or irr != fresh:
+        return violation(f"satisfaction profile with voter {i} replaced in place after a first call: resolute outcome {res}, irresolute outcomes {irr}, "
+                         f"irresolute outcomes on a fresh satisfaction profile {fresh}", case2, cfg, impl=res, expected=irr, sig={"rule": "greedy", "history": "sat_profile_replace"})
+    return None
+
+
+def sp_history_stream(ctx, n):
+    hits = 0
+    for _ in range(n):
+        v = sp_history(ctx.rng.getrandbits(48))
+        ctx.evaluations += 1
+        ctx.count("stream", "satisfaction profile edited in place")
+        if v is not None and hits < 3:
+            hits += 1
+            ctx.violations.append(v)
+
+
 def run(ctx, n=None, compare=True):
     ctx.rule = RULE
     n = n or ctx.scale(1200, 10000)
@@ -177,6 +223,7 @@ def run(ctx, n=None, compare=True):
                 impls.append((rules.canon(ans).strip(), case, cfg_irr))
     if n >= 1000 or ctx.tier == "thorough":
         fast_stream(ctx, ctx.scale(14000, 80000))
+    sp_history_stream(ctx, min(5000, max(500, n // 2)))  # round 7, drawn last
     if compare and lines:
         outs = core.run_driver(lines)
         for line, out, (impl_s, case, cfg) in zip(lines, outs, impls):
@@ -238,6 +285,9 @@ def search(ctx, disagreements):
 
 
 def replay(payload):
+    if payload.get("cfg", {}).get("sp_history_seed") is not None:
+        v = sp_history(payload["cfg"]["sp_history_seed"])
+        return (False, "still fails: " + v["what"]) if v else (True, "resolute and irresolute calls agree on the edited satisfaction profile")
     case = Case.from_json(payload["case"])
     cfg = ruleprops.cfg_from_json(payload["cfg"])
     cfg["tie"] = "lexico"
